@@ -2,7 +2,8 @@
 
 /* Liveness analysis */
 
-//#include <crab/cfg/basic_block_traits.hpp>
+//#include <set>
+#include <crab/cfg/basic_block_traits.hpp>
 #include <crab/domains/discrete_domains.hpp>
 #include <crab/fixpoint/killgen_fixpoint_iterator.hpp>
 #include <crab/support/debug.hpp>
@@ -38,6 +39,8 @@ private:
   using liveness_map_t = std::unordered_map<basic_block_label_t, binding_t>;
   
   liveness_map_t m_liveness_map;
+  // blocks that contain an unreachable statement
+  std::set<basic_block_label_t> m_cut_blocks;
 public:
   liveness_analysis_operations(CFG cfg) : parent_type(cfg) {}
 
@@ -61,12 +64,16 @@ public:
   virtual void init_fixpoint() override {
     for (auto &b :
          boost::make_iterator_range(this->m_cfg.begin(), this->m_cfg.end())) {
-      bool is_unreachable_block = false;
       varset_domain_t kill, gen;
       for (auto &s : boost::make_iterator_range(b.rbegin(), b.rend())) {
 	if (s.is_unreachable()) {
-	  is_unreachable_block = true;
-	  break;
+	  // Nothing after this statement is executed, so nothing is
+	  // live right before it, whatever is live at the end of the
+	  // block. The statements before it are still executed.
+	  kill = varset_domain_t::bottom();
+	  gen = varset_domain_t::bottom();
+	  m_cut_blocks.insert(b.label());
+	  continue;
 	} 
         auto const &live = s.get_live();
         for (auto d :
@@ -79,9 +86,7 @@ public:
           gen += u;
         }
       } // end for
-      if (!is_unreachable_block) {
-	m_liveness_map.insert(std::make_pair(b.label(), binding_t(kill, gen)));
-      }
+      m_liveness_map.insert(std::make_pair(b.label(), binding_t(kill, gen)));
     } // end for
   }
 
@@ -89,10 +94,15 @@ public:
                                   varset_domain_t in) override {
     auto it = m_liveness_map.find(bb_id);
     if (it != m_liveness_map.end()) {
-      in -= it->second.first;
+      if (m_cut_blocks.count(bb_id) > 0) {
+	// the block contains an unreachable statement: only the uses
+	// before it matter
+	in = varset_domain_t::bottom();
+      } else {
+	in -= it->second.first;
+      }
       in += it->second.second;
     } else {
-      // bb_id is unreachable
       in = varset_domain_t::bottom(); // empty set (i.e., no live variables)
     } 
     return in;
